@@ -3,6 +3,7 @@ import InTotoModel.Lemmas.Fuel
 import InTotoModel.Lemmas.InspectOrder
 import InTotoModel.Lemmas.TimeMono
 import InTotoModel.Lemmas.OtherFiles
+import InTotoModel.Lemmas.OwnersOnly
 import InTotoModel.Props.Scenario
 /-
   The pipeline model computes the specification `Spec/Verify.lean` - soundness *and* completeness of
@@ -370,6 +371,45 @@ theorem c02_scenario_with_stray_files :
       (by intro L hL st hst; cases hL; revert st hst; decide)]
   have e : Dir.mk (Scenario.dir.files.take 1 ++ Scenario.dir.files.drop 1) Scenario.dir.subs = Scenario.dir := rfl
   rw [e]
+  exact okPart_eq_some.mpr Scenario.verifies_id
+
+end InToto.VerifySpec
+
+namespace InToto.VerifySpec
+open InToto InToto.Verify
+
+variable {K : Type}
+
+/-! ### C01 / C13 over all key sets and signature lists: clause 1 reads the caller's keys as a set and the
+    signature list under their ids only -/
+
+/-- C13 / C01: the order in which the trusted keys are supplied does not matter (they reach the code in a
+    hash map) -/
+theorem c13_order_of_the_supplied_keys_does_not_matter (env : Env K) (ord ord' : Ord) (hord : ord.Valid)
+    (hord' : ord'.Valid) (fuel : Nat) (path : List Str) (b : Block K) (keys keys' : List K) (hp : keys.Perm keys')
+    (dir : Dir K) (name : Str) :
+    okPart (verify env ord (fuel + 1) path b keys dir name).1 = okPart (verify env ord' (fuel + 1) path b keys' dir name).1 := by
+  rw [okPart_verify_eq_accepts env ord hord, okPart_verify_eq_accepts env ord' hord']
+  exact (acceptsStep_congr_owners (accepts env fuel) env path b b keys keys' dir name rfl
+    (ownersSigned_perm env b hp).symm).symm
+
+/-- C01: a signature entry under the id of a key that was not supplied - whoever made it, valid or not,
+    wherever it stands in the layout's signature list - neither helps nor hurts -/
+theorem c01_signatures_of_keys_not_supplied_do_not_matter (env : Env K) (ord ord' : Ord) (hord : ord.Valid)
+    (hord' : ord'.Valid) (fuel : Nat) (path : List Str) (content : Meta K) (pre post : List Sig) (s : Sig)
+    (keys : List K) (hs : ∀ k ∈ keys, env.kidOf k ≠ s.kid) (dir : Dir K) (name : Str) :
+    okPart (verify env ord (fuel + 1) path { sigs := pre ++ s :: post, signed := content } keys dir name).1 =
+      okPart (verify env ord' (fuel + 1) path { sigs := pre ++ post, signed := content } keys dir name).1 := by
+  rw [okPart_verify_eq_accepts env ord hord, okPart_verify_eq_accepts env ord' hord']
+  exact acceptsStep_congr_owners (accepts env fuel) env path _ _ keys keys dir name rfl
+    (ownersSigned_insert_foreign env content pre post s keys hs)
+
+/-- non-vacuity: the scenario's layout with a second signature entry, under functionary B's id, put in front
+    of the owner's: accepted with the same summary -/
+theorem c01_scenario_with_a_foreign_signature :
+    okPart (verify Scenario.env Scenario.revOrd 2 [] (Block.mk ([] ++ Sig.mk Scenario.kB [9] :: Scenario.block.sigs) Scenario.block.signed) [0] Scenario.dir "final".toList).1 = some Scenario.summaryLink := by
+  rw [c01_signatures_of_keys_not_supplied_do_not_matter Scenario.env Scenario.revOrd Scenario.idOrd Scenario.revOrd_valid
+    Scenario.idOrd_valid 1 [] Scenario.block.signed [] Scenario.block.sigs _ [0] (by decide) Scenario.dir _]
   exact okPart_eq_some.mpr Scenario.verifies_id
 
 end InToto.VerifySpec
